@@ -78,7 +78,7 @@ if h:
 c.finish(
     assumptions=[
         "H-regexp: Go's regexp package implements markerRegexp / startRegexp as the hand-written matcher SeqScan.line_marker / start_here does",
-        "H-parse (theorems): the object parser is suffix-stable on complete chunks, fails with Malformed or EOF on proper prefixes of a chunk and never returns another error class on in-memory data; exercised on the implementation for every cut. It is not instantiated with a concrete Coq parser: suffix stability for all dictionary/array/string/name/number/stream chunks is C01's object-syntax round trip (a second object-syntax model would be needed here), and for streams with an indirect /Length the outcome is not a function of the chunk alone (it depends on whether the length object lies in the file)",
+        "H-parse (theorems): the object parser is suffix-stable on complete chunks, fails with Malformed or EOF on proper prefixes of a chunk and never returns another error class on in-memory data; exercised on the implementation for every cut. Instantiated for integer objects (`N G obj LF digits LF endobj`): IntObjects.parse_int satisfies the three hypotheses (Prop_C20.hparse_instance), prefix_complete_int_objects / trailing_broken_int_objects hold with no parser assumption, and parse_int is compared with scanner.ReadIndirectObject on integer objects, all their prefixes and with LF + arbitrary bytes appended. Not instantiated for the other kinds of value: suffix stability for dictionary/array/string/name/real/stream chunks is C01's object-syntax round trip (a second object-syntax model would be needed here), and for streams with an indirect /Length the outcome is not a function of the chunk alone (it depends on whether the length object lies in the file); the implementation accepts `endobj` only before a delimiter, so of the bytes that may follow a chunk only end-of-input and LF + anything are exercised (what the file shape of the theorems produces)",
         "theorems are about scanner.Find with its buffer windows (SeqScan.scan_windows) and hold for tame files whose header lies within the first 1024 bytes: at every line start no marker text followed by a word character, and no marker text longer than regexpOverlap = 64 bytes; tameness is evaluated for every generated file (windowed_vs_ideal_and_tameness)",
         "theorems: files of the shape header, chunks `N G obj ... endobj`, tail, chunk interiors free of an EOL followed by a marker; the objects inside an object stream are not indirect objects of the file text (SequentialScan lists their container and records it in ObjectStreams, which the harness checks)",
     ],
